@@ -394,7 +394,46 @@ struct CtxSim {
 	const run::Plan &plan;
 	KSI_CTX *ctx = nullptr;
 	BlockingWorld bw;
-	struct Live { KSI_Signature *sig = nullptr; std::string bytes; std::string hash; uint64_t level = 0; uint64_t agg = 0, pub = 0; std::string cal_root; bool has_cal = false; };
+	struct Live { KSI_Signature *sig = nullptr; std::string bytes; std::string hash; uint64_t level = 0; uint64_t agg = 0, pub = 0; std::string cal_root; bool has_cal = false; bool block = false; };
+	// a local block: leaves aggregated by a tree builder on the shared context; its root was signed (live signature marked `block`).
+	// A leaf chain object is kept and offered again as long as no append has accepted it.
+	struct Block {
+		std::vector<std::string> leaf_imps; int leaf_level = 0;
+		std::string root; int root_level = 0;
+		KSI_TreeBuilder *tb = nullptr; std::vector<KSI_TreeLeafHandle *> hs; std::vector<KSI_AggregationHashChain *> chains;
+	} blk;
+	bool build_block(KSI_CTX *c, Block &b, bool keep) {
+		if (KSI_TreeBuilder_new(c, KSI_HASHALG_SHA2_256, &b.tb) != KSI_OK) return false;
+		b.hs.assign(b.leaf_imps.size(), nullptr); b.chains.assign(b.leaf_imps.size(), nullptr);
+		for (size_t i = 0; i < b.leaf_imps.size(); i++) {
+			KSI_DataHash *dh = sdk::hash_from_imprint(c, b.leaf_imps[i]);
+			int res = KSI_TreeBuilder_addDataHash(b.tb, dh, b.leaf_level, &b.hs[i]);
+			KSI_DataHash_free(dh);
+			if (res != KSI_OK) return false;
+		}
+		if (KSI_TreeBuilder_close(b.tb) != KSI_OK || !b.tb->rootNode) return false;
+		if (keep) { b.root = sdk::imprint_of(b.tb->rootNode->hash); b.root_level = (int)b.tb->rootNode->level; }
+		return true;
+	}
+	void free_block(Block &b) {
+		for (auto *c : b.chains) KSI_AggregationHashChain_free(c);
+		for (auto *h : b.hs) KSI_TreeLeafHandle_free(h);
+		KSI_TreeBuilder_free(b.tb);
+		b.chains.clear(); b.hs.clear(); b.tb = nullptr;
+	}
+	struct Derived { int res = -1; std::string bytes; KSI_Signature *sig = nullptr; bool appended = false; };
+	Derived prepend_on(KSI_Signature *src, Block &b, size_t k, uint64_t start_level, uint64_t root_level) {
+		Derived d;
+		if (!b.chains[k] && KSI_TreeLeafHandle_getAggregationChain(b.hs[k], &b.chains[k]) != KSI_OK) { d.res = -2; return d; }
+		KSI_SignatureBuilder *sb = nullptr;
+		d.res = KSI_SignatureBuilder_openFromSignature(src, &sb);
+		if (d.res == KSI_OK) d.res = KSI_SignatureBuilder_setAggregationChainStartLevel(sb, start_level);
+		if (d.res == KSI_OK) { d.res = KSI_SignatureBuilder_appendAggregationChain(sb, b.chains[k]); d.appended = d.res == KSI_OK; }
+		if (d.res == KSI_OK) d.res = KSI_SignatureBuilder_close(sb, root_level, &d.sig);
+		KSI_SignatureBuilder_free(sb);
+		if (d.res == KSI_OK && d.sig) d.bytes = sdk::serialize(d.sig);
+		return d;
+	}
 	std::vector<Live> live;
 	std::vector<uint64_t> states;
 	bool nontrivial = false;
@@ -462,8 +501,8 @@ struct CtxSim {
 		return t;
 	}
 
-	void add_live(KSI_Signature *s, const std::string &bytes, const std::string &hash, uint64_t level) {
-		Live l; l.sig = s; l.bytes = bytes; l.hash = hash; l.level = level;
+	void add_live(KSI_Signature *s, const std::string &bytes, const std::string &hash, uint64_t level, bool block = false) {
+		Live l; l.sig = s; l.bytes = bytes; l.hash = hash; l.level = level; l.block = block;
 		SigView v;
 		if (parse_signature(bytes, v)) { SigFacts f = evaluate(v); l.agg = f.agg_time; l.has_cal = v.has_cal; l.pub = v.has_cal ? v.cal.pub : 0; l.cal_root = f.cal_root; }
 		live.push_back(l);
@@ -479,7 +518,7 @@ struct CtxSim {
 			if (!s) { K.fail("C11", "accepted-signature-rejected-later", "parse", "a signature the context accepted before is rejected now (0x%x)", res); return; }
 			std::string back = sdk::serialize(s);
 			if (back != src.bytes) K.fail("C11", "parse-serialize-not-identical", "parse", "a parsed signature does not re-serialize to the bytes it was parsed from");
-			add_live(s, back, src.hash, src.level);
+			add_live(s, back, src.hash, src.level, src.block);
 		} else if (op.k == "CLONE") {
 			Live &src = live[(size_t)op.arg(0) % live.size()];
 			KSI_Signature *c = nullptr;
@@ -488,7 +527,7 @@ struct CtxSim {
 			if (res != KSI_OK) { K.fail("C11", "clone-failed", "clone", "cloning failed with 0x%x", res); return; }
 			std::string b = sdk::serialize(c);
 			if (b != src.bytes) K.fail("C11", "clone-serializes-differently", "clone", "a clone serializes differently from its original");
-			add_live(c, b, src.hash, src.level);
+			add_live(c, b, src.hash, src.level, src.block);
 		} else if (op.k == "VERIFY") {
 			size_t idx = (size_t)op.arg(0) % live.size();
 			Live lv = live[idx];
@@ -526,7 +565,7 @@ struct CtxSim {
 			K.ev("EXTEND sig=%zu -> 0x%x", idx, res);
 			nontrivial = true;
 			check_all_unchanged("extend");
-			if (res == KSI_OK && out) add_live(out, sdk::serialize(out), live[idx].hash, live[idx].level);
+			if (res == KSI_OK && out) add_live(out, sdk::serialize(out), live[idx].hash, live[idx].level, live[idx].block);
 		} else if (op.k == "SIGN") {
 			std::string hash = imprint(1, "hist-doc-" + std::to_string(plan.seed) + "-" + std::to_string(live.size()));
 			KSI_DataHash *dh = sdk::hash_from_imprint(ctx, hash);
@@ -543,6 +582,53 @@ struct CtxSim {
 			K.ev("SIGN -> 0x%x", res);
 			check_all_unchanged("sign");
 			if (res == KSI_OK && out) add_live(out, sdk::serialize(out), hash, level);
+		} else if (op.k == "PREPEND") {
+			// derive a leaf signature by prepending the leaf's local aggregation chain to a signature of the block's root
+			std::vector<size_t> cand;
+			for (size_t i = 0; i < live.size(); i++) if (live[i].block) cand.push_back(i);
+			if (cand.empty() || blk.hs.empty()) return;
+			size_t idx = cand[(size_t)op.arg(0) % cand.size()];
+			size_t k = (size_t)op.arg(1) % blk.hs.size();
+			static const int64_t deltas[] = {0, 0, 0, 1, 2, -1};
+			int64_t sl = blk.leaf_level + deltas[op.arg(2) % 6];
+			uint64_t start_level = (uint64_t)std::max<int64_t>(0, sl);
+			uint64_t root_level = op.arg(3) % 3 == 0 ? 0 : op.arg(3) % 3 == 1 ? (uint64_t)blk.leaf_level : 3;
+			Derived a = prepend_on(live[idx].sig, blk, k, start_level, root_level);
+			// a successful append "updates aggregation time and chain index" of the chain it is given (documented), so the object is
+			// spent; after a refused append the same object is offered again (its cached output hash must not matter)
+			if (a.appended) { KSI_AggregationHashChain_free(blk.chains[k]); blk.chains[k] = nullptr; K.count("probe.chain_object_spent"); }
+			else K.count("probe.chain_object_reused_after_refusal");
+			check_all_unchanged("prepend");
+			// the same derivation on a fresh context: fresh parse of the source, fresh tree, fresh chain object
+			KSI_CTX *fc = sdk::new_ctx(0);
+			int pres = 0;
+			KSI_Signature *fs = sdk::parse_sig(fc, live[idx].bytes, &pres);
+			Block fb; fb.leaf_imps = blk.leaf_imps; fb.leaf_level = blk.leaf_level;
+			Derived f;
+			if (fs && build_block(fc, fb, false)) f = prepend_on(fs, fb, k, start_level, root_level);
+			K.ev("PREPEND sig=%zu leaf=%zu start=%llu root_level=%llu -> 0x%x | fresh 0x%x", idx, k, (unsigned long long)start_level, (unsigned long long)root_level, a.res, f.res);
+			nontrivial = true;
+			if (a.res != f.res) K.fail("C11", "derivation-depends-on-context-history", "prepend", "prepending leaf %zu's chain (start level %llu) gives 0x%x on the shared objects and 0x%x on fresh ones", k, (unsigned long long)start_level, a.res, f.res);
+			else if (a.res == KSI_OK && a.bytes != f.bytes) K.fail("C11", "derived-signature-differs-from-fresh-twin", "prepend", "the signature derived for leaf %zu differs from the one derived on fresh objects", k);
+			if (a.res == KSI_OK && a.sig && !K.failed()) {
+				SigView v; SigFacts ff;
+				if (parse_signature(a.bytes, v)) ff = evaluate(v);
+				int vres = KSI_Signature_verifyWithPolicy(a.sig, NULL, 0, KSI_VERIFICATION_POLICY_INTERNAL, NULL);
+				int pr2 = 0;
+				KSI_Signature *again = sdk::parse_sig(ctx, a.bytes, &pr2);
+				bool good = ff.consistent && ff.input_hash == blk.leaf_imps[k];
+				if (!good) K.fail("C11", "derived-signature-invalid", ff.why.empty() ? "input" : ff.why, "the signature derived for leaf %zu is not a valid signature of that leaf (%s)", k, ff.why.c_str());
+				else if (vres != KSI_OK || !again) K.fail("C11", "verdict-differs-between-object-and-serialization", "prepend", "derived signature: in-memory internal verification 0x%x, parsing its own serialization 0x%x, independent evaluation valid", vres, pr2);
+				if (again) KSI_Signature_free(again);
+				K.count("outcome.leaf_signature_derived");
+				add_live(a.sig, a.bytes, blk.leaf_imps[k], root_level);
+				a.sig = nullptr;
+			} else K.count("outcome.derivation_refused");
+			if (a.sig) KSI_Signature_free(a.sig);
+			if (f.sig) KSI_Signature_free(f.sig);
+			if (fs) KSI_Signature_free(fs);
+			free_block(fb);
+			KSI_CTX_free(fc);
 		} else if (op.k == "LOGLEVEL") {
 			KSI_CTX_setLogLevel(ctx, (int)(op.arg(0) % 6));
 		} else if (op.k == "TICK") {
@@ -569,16 +655,25 @@ struct CtxSim {
 			ReplyMeta m;
 			std::string hash = imprint(i == 2 ? 5 : 1, "hist-src-" + std::to_string(plan.seed) + "-" + std::to_string(i));
 			uint64_t level = i == 1 ? 2 : 0;
+			if (i == 1) {
+				// the level-2+ signature is the signature of a local block's root
+				int nl = 2 + (int)(plan.c("block_leaves", 2) % 5);
+				blk.leaf_level = (int)(plan.c("block_leaf_level", 0) % 3);
+				for (int q = 0; q < nl; q++) blk.leaf_imps.push_back(imprint(1, "hist-leaf-" + std::to_string(plan.seed) + "-" + std::to_string(q)));
+				if (build_block(ctx, blk, true)) { hash = blk.root; level = (uint64_t)blk.root_level; }
+				else { free_block(blk); blk.leaf_imps.clear(); }
+			}
 			std::string bytes = bw.world.make_signature(hash, level, 700 + i + plan.seed % 89, i != 1, m);
 			int res = 0;
 			KSI_Signature *s = sdk::parse_sig(ctx, bytes, &res);
 			if (!s) { K.fail("C11", "reference-signature-rejected", "setup", "the SDK refuses a signature built by the reference world (0x%x)", res); continue; }
 			if (sdk::serialize(s) != bytes) K.fail("C11", "parse-serialize-not-identical", "setup", "a canonical signature does not re-serialize to the bytes it was parsed from");
-			add_live(s, bytes, hash, level);
+			add_live(s, bytes, hash, level, i == 1 && !blk.hs.empty());
 		}
 		for (int i = 0; i < 3; i++) { ReplyMeta m; bw.world.make_signature(imprint(1, "later" + std::to_string(i)), 0, 900 + i, true, m); }
 		for (size_t i = 0; i < plan.ops.size() && !K.failed() && !K.inconclusive; i++) exec(plan.ops[i]);
 		for (auto &l : live) KSI_Signature_free(l.sig);
+		free_block(blk);
 		KSI_CTX_free(ctx);
 		rr.hash = K.hash; rr.violations = K.violations; rr.counters = K.counters; rr.sim_ms = K.elapsed_ms;
 		rr.inconclusive = K.inconclusive; rr.nontrivial = nontrivial; rr.abstract_states = states;
@@ -635,11 +730,14 @@ struct HistoryEngine : run::Engine {
 		p.cfg["faults"] = g.chance(1, 2) ? 0 : 1;
 		p.cfg["loglevel"] = g.chance(1, 4) ? 5 : 0;
 		p.cfg["epoch_ms"] = (int64_t)g.below(1000);
+		p.cfg["block_leaves"] = (int64_t)g.below(5);
+		p.cfg["block_leaf_level"] = g.chance(2, 3) ? 0 : (int64_t)g.range(1, 2);
 		int n = tier ? (int)g.range(10, 60) : (int)g.range(4, 24);
 		for (int i = 0; i < n; i++) {
 			int r = (int)g.below(100);
 			run::Op op;
-			if (r < 45) { op.k = "VERIFY"; op.a = {(int64_t)g.below(16), (int64_t)g.below(4), (int64_t)g.below(4), (int64_t)g.below(8), (int64_t)g.below(2), (int64_t)g.below(4), g.chance(1, 2) ? 0 : (int64_t)g.below(B__COUNT), (int64_t)g.below(1 << 30), g.chance(2, 3) ? 0 : (int64_t)g.range(1, 3), (int64_t)g.below(900), (int64_t)g.below(2)}; }
+			if (r < 10) { op.k = "PREPEND"; op.a = {(int64_t)g.below(8), (int64_t)g.below(8), (int64_t)g.below(6), (int64_t)g.below(3)}; }
+			else if (r < 45) { op.k = "VERIFY"; op.a = {(int64_t)g.below(16), (int64_t)g.below(4), (int64_t)g.below(4), (int64_t)g.below(8), (int64_t)g.below(2), (int64_t)g.below(4), g.chance(1, 2) ? 0 : (int64_t)g.below(B__COUNT), (int64_t)g.below(1 << 30), g.chance(2, 3) ? 0 : (int64_t)g.range(1, 3), (int64_t)g.below(900), (int64_t)g.below(2)}; }
 			else if (r < 55) { op.k = "PARSE"; op.a = {(int64_t)g.below(16)}; }
 			else if (r < 63) { op.k = "CLONE"; op.a = {(int64_t)g.below(16)}; }
 			else if (r < 75) { op.k = "EXTEND"; op.a = {(int64_t)g.below(16), g.chance(1, 2) ? 0 : (int64_t)g.below(B__COUNT), (int64_t)g.below(1 << 30), g.chance(2, 3) ? 0 : (int64_t)g.range(1, 3)}; }
